@@ -24,6 +24,7 @@ import (
 	"go/token"
 	"os"
 	"path/filepath"
+	"reflect"
 	"sort"
 	"strings"
 )
@@ -38,6 +39,13 @@ type Target struct {
 	Free    map[string]string `json:"free"`
 	// FreeOrder fixes the order of the free-variable parameters (defaults to sorted names).
 	FreeOrder []string `json:"free_order"`
+	// StoreTo (mode "store"): flattened name of the field (e.g. x_roundRobinNext) whose value after the
+	// block that contains the index expression over IndexOf is returned (selector assignment,
+	// atomic.StoreUintNN(&f, e) and atomic.AddUintNN(&f, d) are the recognised writes).
+	StoreTo string `json:"store_to"`
+	// Case (modes "index"/"store", optional): restrict the search to the body of the first switch case
+	// clause whose expression list contains this identifier (e.g. RoundRobinRouting).
+	Case string `json:"case"`
 }
 
 type Spec struct {
@@ -51,9 +59,22 @@ type tr struct {
 	free  map[string]string
 	used  map[string]bool
 	fresh int
+	// track: field writes (x.f = e, atomic.Store*(&x.f, e), atomic.Add*(&x.f, d)) shadow the free
+	// variable of the field from then on (modes "index" with "track_stores" semantics and "store").
+	track   bool
+	prelude []string // let-bindings hoisted in front of the statement being translated (atomic.Add under track)
 }
 
+// softDie: when set, die panics with a dieErr instead of exiting (mode "store" uses it to mark the
+// target of an untranslatable assignment opaque instead of failing; using an opaque variable still fails).
+var softDie bool
+
+type dieErr struct{ msg string }
+
 func die(format string, a ...any) {
+	if softDie {
+		panic(dieErr{fmt.Sprintf(format, a...)})
+	}
 	fmt.Fprintf(os.Stderr, "goq: "+format+"\n", a...)
 	os.Exit(2)
 }
@@ -102,7 +123,12 @@ func wrapOf(ty string) string {
 	return ""
 }
 
-func (t *tr) pos(n ast.Node) string { return t.fset.Position(n.Pos()).String() }
+func (t *tr) pos(n ast.Node) string {
+	if n == nil || reflect.ValueOf(n).IsNil() {
+		return "(end of block)"
+	}
+	return t.fset.Position(n.Pos()).String()
+}
 
 // flatten a selector chain x.a.b into x_a_b
 func flatSel(e ast.Expr) (string, bool) {
@@ -142,6 +168,33 @@ func (t *tr) useFree(name string, n ast.Node) (string, string) {
 	return coqIdent(name), nt
 }
 
+// readVar reads a (flattened) field: the shadowing let when the field was written earlier in the
+// fragment, the free variable otherwise.
+func (t *tr) readVar(name string, n ast.Node) (string, string) {
+	if ty, ok := t.types[name]; ok {
+		if ty == "opaque" {
+			die("%s: %s holds a value outside the subset", t.pos(n), name)
+		}
+		return coqIdent(name), ty
+	}
+	return t.useFree(name, n)
+}
+
+// addrField: &x.f -> "x_f"
+func addrField(e ast.Expr) (string, bool) {
+	u, ok := e.(*ast.UnaryExpr)
+	if !ok || u.Op != token.AND {
+		return "", false
+	}
+	return flatSel(u.X)
+}
+
+var atomicWidth = map[string]string{
+	"atomic.AddUint32": "uint32", "atomic.AddUint64": "uint64", "atomic.AddInt64": "int64", "atomic.AddInt32": "int32",
+	"atomic.LoadUint32": "uint32", "atomic.LoadUint64": "uint64", "atomic.LoadInt64": "int64", "atomic.LoadInt32": "int32",
+	"atomic.StoreUint32": "uint32", "atomic.StoreUint64": "uint64", "atomic.StoreInt64": "int64", "atomic.StoreInt32": "int32",
+}
+
 // unify operand types: an untyped constant adopts the other side's type
 func unify(a, b string) (string, bool) {
 	if a == "const" {
@@ -172,6 +225,9 @@ func (t *tr) expr(e ast.Expr) (string, string) {
 			return v.Name, "bool"
 		}
 		if ty, ok := t.types[v.Name]; ok {
+			if ty == "opaque" {
+				die("%s: variable %s holds a value outside the subset", t.pos(v), v.Name)
+			}
 			return coqIdent(v.Name), ty
 		}
 		return t.useFree(v.Name, v)
@@ -180,7 +236,7 @@ func (t *tr) expr(e ast.Expr) (string, string) {
 		if !ok {
 			die("%s: unsupported selector", t.pos(v))
 		}
-		return t.useFree(name, v)
+		return t.readVar(name, v)
 	case *ast.UnaryExpr:
 		s, ty := t.expr(v.X)
 		switch v.Op {
@@ -308,13 +364,35 @@ func (t *tr) call(v *ast.CallExpr) (string, string) {
 		if !ok {
 			die("%s: atomic add on a non-field", t.pos(v))
 		}
-		cur, ty := t.useFree(name, v)
+		cur, ty := t.readVar(name, v)
 		want := map[string]string{"atomic.AddUint32": "uint32", "atomic.AddUint64": "uint64", "atomic.AddInt64": "int64"}[fn]
 		if ty != want {
 			die("%s: %s on %s", t.pos(v), fn, ty)
 		}
 		d, _ := t.expr(v.Args[1])
-		return "(" + wrapOf(ty) + " (" + cur + " + " + d + "))", ty
+		val := "(" + wrapOf(ty) + " (" + cur + " + " + d + "))"
+		if t.track {
+			// the addition also writes the field: hoist `let tmp := new in let field := tmp in`
+			t.fresh++
+			tmp := fmt.Sprintf("atomic_new%d", t.fresh)
+			t.prelude = append(t.prelude, "let "+tmp+" := "+val+" in\n  let "+coqIdent(name)+" := "+tmp+" in\n  ")
+			t.types[name] = ty
+			return tmp, ty
+		}
+		return val, ty
+	case "atomic.LoadUint32", "atomic.LoadUint64", "atomic.LoadInt64", "atomic.LoadInt32":
+		if len(v.Args) != 1 {
+			die("%s: %s with %d args", t.pos(v), fn, len(v.Args))
+		}
+		name, ok := addrField(v.Args[0])
+		if !ok {
+			die("%s: atomic load needs &field", t.pos(v))
+		}
+		s, ty := t.readVar(name, v)
+		if ty != atomicWidth[fn] {
+			die("%s: %s on %s", t.pos(v), fn, ty)
+		}
+		return s, ty
 	}
 	// value-preserving methods on time.Duration / atomics: x.Nanoseconds(), x.Load()
 	if sel, ok := v.Fun.(*ast.SelectorExpr); ok && len(v.Args) == 0 {
@@ -366,7 +444,35 @@ func (t *tr) assign(a *ast.AssignStmt, rest func() string) string {
 	}
 	id, ok := a.Lhs[0].(*ast.Ident)
 	if !ok {
+		// field write x.f = e: a let that shadows the field's free variable from here on
+		if sel, isSel := a.Lhs[0].(*ast.SelectorExpr); isSel {
+			if name, okf := flatSel(sel); okf {
+				if a.Tok == token.DEFINE {
+					die("%s: := on a field", t.pos(a))
+				}
+				if _, shadowed := t.types[name]; !shadowed {
+					if _, declared := t.free[name]; !declared {
+						die("%s: write to field %q that has no declared type in the spec", t.pos(a), name)
+					}
+				}
+				id = &ast.Ident{Name: name, NamePos: a.Pos()}
+				ok = true
+			}
+		}
+	}
+	if !ok {
 		die("%s: assignment to a non-variable", t.pos(a))
+	}
+	if _, isSel := a.Lhs[0].(*ast.SelectorExpr); isSel && a.Tok != token.ASSIGN {
+		// compound assignment on a field: x.f op= e reads the field through readVar
+		opTok := map[token.Token]token.Token{token.ADD_ASSIGN: token.ADD, token.SUB_ASSIGN: token.SUB, token.MUL_ASSIGN: token.MUL, token.SHL_ASSIGN: token.SHL, token.SHR_ASSIGN: token.SHR, token.QUO_ASSIGN: token.QUO, token.REM_ASSIGN: token.REM}[a.Tok]
+		if opTok == 0 {
+			die("%s: unsupported assignment operator %s", t.pos(a), a.Tok)
+		}
+		s, ty := t.binary(&ast.BinaryExpr{X: a.Lhs[0], Op: opTok, Y: a.Rhs[0], OpPos: a.Pos()})
+		pre := t.takePrelude()
+		t.types[id.Name] = ty
+		return pre + "let " + coqIdent(id.Name) + " := " + s + " in\n  " + rest()
 	}
 	var s, ty string
 	switch a.Tok {
@@ -380,14 +486,73 @@ func (t *tr) assign(a *ast.AssignStmt, rest func() string) string {
 		}
 		s, ty = t.binary(&ast.BinaryExpr{X: id, Op: opTok, Y: a.Rhs[0], OpPos: a.Pos()})
 	}
+	if _, isSel := a.Lhs[0].(*ast.SelectorExpr); isSel && ty == "const" {
+		if nt, okn := normType(t.free[id.Name]); okn {
+			ty = nt
+		}
+	}
 	if ty == "const" {
 		ty = "int64"
 	}
-	if old, ok := t.types[id.Name]; ok && old != ty && a.Tok == token.ASSIGN {
+	if _, isSel := a.Lhs[0].(*ast.SelectorExpr); isSel {
+		// the field's declared type decides the width of the stored value
+		if ft, okf := t.free[id.Name]; okf {
+			if nt, okn := normType(ft); okn && nt != ty {
+				die("%s: field %s of type %s assigned a %s", t.pos(a), id.Name, nt, ty)
+			}
+		}
+	}
+	if old, ok := t.types[id.Name]; ok && old != ty && old != "opaque" && a.Tok == token.ASSIGN {
 		die("%s: assignment changes type of %s", t.pos(a), id.Name)
 	}
+	pre := t.takePrelude()
 	t.types[id.Name] = ty
-	return "let " + coqIdent(id.Name) + " := " + s + " in\n  " + rest()
+	return pre + "let " + coqIdent(id.Name) + " := " + s + " in\n  " + rest()
+}
+
+func (t *tr) takePrelude() string {
+	p := strings.Join(t.prelude, "")
+	t.prelude = nil
+	return p
+}
+
+// atomicStore recognises the statement atomic.StoreUintNN(&x.f, e) and returns (field, e).
+func atomicStore(st ast.Stmt) (string, ast.Expr, string, bool) {
+	es, ok := st.(*ast.ExprStmt)
+	if !ok {
+		return "", nil, "", false
+	}
+	c, ok := es.X.(*ast.CallExpr)
+	if !ok || len(c.Args) != 2 {
+		return "", nil, "", false
+	}
+	fn := typeString(c.Fun)
+	if !strings.HasPrefix(fn, "atomic.Store") {
+		return "", nil, "", false
+	}
+	w, ok := atomicWidth[fn]
+	if !ok {
+		return "", nil, "", false
+	}
+	name, ok := addrField(c.Args[0])
+	if !ok {
+		return "", nil, "", false
+	}
+	return name, c.Args[1], w, true
+}
+
+// storeLet translates atomic.StoreUintNN(&x.f, e) as `let x_f := e in rest`.
+func (t *tr) storeLet(st ast.Stmt, name string, val ast.Expr, width string, rest func() string) string {
+	s, ty := t.expr(val)
+	if ty == "const" {
+		ty = width
+	}
+	if ty != width {
+		die("%s: atomic store of a %s into a %s field", t.pos(st), ty, width)
+	}
+	pre := t.takePrelude()
+	t.types[name] = ty
+	return pre + "let " + coqIdent(name) + " := " + s + " in\n  " + rest()
 }
 
 // stmts translates a statement list that must end in a return on every path.
@@ -462,7 +627,19 @@ func copyTypes(m map[string]string) map[string]string {
 // findIndexBlock finds the innermost statement list containing the first IndexExpr over `name`,
 // returning the statements that precede it in that list and the index expression.
 func findIndexBlock(body *ast.BlockStmt, name string) ([]ast.Stmt, ast.Expr) {
+	pre, _, idx := findIndexBlockFull(body, name)
+	return pre, idx
+}
+
+// findIndexList: the whole innermost statement list containing the first IndexExpr over `name`.
+func findIndexList(body *ast.BlockStmt, name string) ([]ast.Stmt, ast.Expr) {
+	_, full, idx := findIndexBlockFull(body, name)
+	return full, idx
+}
+
+func findIndexBlockFull(body *ast.BlockStmt, name string) ([]ast.Stmt, []ast.Stmt, ast.Expr) {
 	var pre []ast.Stmt
+	var full []ast.Stmt
 	var idx ast.Expr
 	var visitList func(list []ast.Stmt) bool
 	containsIdx := func(n ast.Node) ast.Expr {
@@ -510,13 +687,14 @@ func findIndexBlock(body *ast.BlockStmt, name string) ([]ast.Stmt, ast.Expr) {
 				return true
 			}
 			pre = list[:i]
+			full = list
 			idx = containsIdx(st)
 			return true
 		}
 		return false
 	}
 	visitList(body.List)
-	return pre, idx
+	return pre, full, idx
 }
 
 func (t *tr) indexFragment(pre []ast.Stmt, idx ast.Expr) string {
@@ -528,11 +706,139 @@ func (t *tr) indexFragment(pre []ast.Stmt, idx ast.Expr) string {
 	case *ast.AssignStmt:
 		return t.assign(s, func() string { return t.indexFragment(pre[1:], idx) })
 	case *ast.ExprStmt, *ast.DeferStmt:
+		if name, val, w, ok := atomicStore(pre[0]); ok {
+			return t.storeLet(pre[0], name, val, w, func() string { return t.indexFragment(pre[1:], idx) })
+		}
 		// lock/unlock/defer calls before the index expression carry no integer data flow
 		return t.indexFragment(pre[1:], idx)
 	}
 	die("%s: unsupported statement %T before index expression", t.pos(pre[0]), pre[0])
 	return ""
+}
+
+// storeFragment walks a statement list to its end (or first return) and yields the value the field
+// `field` holds afterwards. Assignments whose right-hand side is outside the subset (e.g. the slice
+// read itself) make their target opaque; control flow other than a trailing return is rejected.
+func (t *tr) storeFragment(list []ast.Stmt, field string) string {
+	if len(list) == 0 {
+		s, _ := t.readVar(field, nil)
+		return s
+	}
+	rest := func() string { return t.storeFragment(list[1:], field) }
+	switch s := list[0].(type) {
+	case *ast.ReturnStmt:
+		// a return expression may still write the field (atomic.Add inside it)
+		for _, r := range s.Results {
+			t.tryExpr(r)
+		}
+		pre := t.takePrelude()
+		v, _ := t.readVar(field, s)
+		return pre + v
+	case *ast.AssignStmt:
+		if out, ok := t.tryAssign(s, rest); ok {
+			return out
+		}
+		for _, l := range s.Lhs {
+			if n, ok := flatSel(l); ok {
+				t.types[n] = "opaque"
+			}
+		}
+		return rest()
+	case *ast.ExprStmt, *ast.DeferStmt, *ast.GoStmt:
+		if name, val, w, ok := atomicStore(list[0]); ok {
+			return t.storeLet(list[0], name, val, w, rest)
+		}
+		if es, ok := list[0].(*ast.ExprStmt); ok {
+			// a call statement may contain an atomic.Add on the field (value discarded)
+			if c, ok := es.X.(*ast.CallExpr); ok && strings.HasPrefix(typeString(c.Fun), "atomic.Add") {
+				t.expr(c)
+				return t.takePrelude() + rest()
+			}
+		}
+		return rest()
+	}
+	if n := list[0]; n != nil {
+		die("%s: unsupported statement %T in the block that updates %s", t.pos(n), n, field)
+	}
+	return ""
+}
+
+func (t *tr) tryExpr(e ast.Expr) {
+	saved := softDie
+	softDie = true
+	defer func() {
+		softDie = saved
+		if r := recover(); r != nil {
+			if _, ok := r.(dieErr); !ok {
+				panic(r)
+			}
+		}
+	}()
+	t.expr(e)
+}
+
+// tryAssign translates an assignment; ok=false (and no state change besides hoisted writes) when its
+// right-hand side is outside the subset.
+func (t *tr) tryAssign(a *ast.AssignStmt, rest func() string) (out string, ok bool) {
+	if len(a.Lhs) != 1 || len(a.Rhs) != 1 {
+		return "", false
+	}
+	saved := softDie
+	savedTypes := copyTypes(t.types)
+	savedUsed := make(map[string]bool, len(t.used))
+	for k, v := range t.used {
+		savedUsed[k] = v
+	}
+	softDie = true
+	var head string
+	func() {
+		defer func() {
+			softDie = saved
+			if r := recover(); r != nil {
+				if _, isDie := r.(dieErr); !isDie {
+					panic(r)
+				}
+				ok = false
+			}
+		}()
+		head = t.assign(a, func() string { return "\x00" })
+		ok = true
+	}()
+	if !ok {
+		if len(t.prelude) > 0 {
+			die("%s: a field write inside an expression outside the subset", t.pos(a))
+		}
+		t.types = savedTypes
+		t.used = savedUsed
+		return "", false
+	}
+	return strings.Replace(head, "\x00", rest(), 1), true
+}
+
+// caseBody: the function body, or (Target.Case set) the body of the selected switch case clause.
+func caseBody(fd *ast.FuncDecl, tg Target) *ast.BlockStmt {
+	if tg.Case == "" {
+		return fd.Body
+	}
+	var found *ast.CaseClause
+	ast.Inspect(fd.Body, func(n ast.Node) bool {
+		if found != nil {
+			return false
+		}
+		if cc, ok := n.(*ast.CaseClause); ok {
+			for _, e := range cc.List {
+				if s := typeString(e); s == tg.Case || strings.HasSuffix(s, "."+tg.Case) {
+					found = cc
+					return false
+				}
+			}
+		}
+		return true
+	})
+	if found == nil {
+		die("%s: no switch case %s", tg.Func, tg.Case)
+	}
+	return &ast.BlockStmt{List: found.Body}
 }
 
 func main() {
@@ -592,11 +898,29 @@ func main() {
 			}
 			body = t.stmts(fd.Body.List)
 		case "index":
-			pre, idx := findIndexBlock(fd.Body, tg.IndexOf)
+			pre, idx := findIndexBlock(caseBody(fd, tg), tg.IndexOf)
 			if idx == nil {
 				die("%s: no index expression over %s", tg.Func, tg.IndexOf)
 			}
+			t.track = true
 			body = t.indexFragment(pre, idx)
+			body = t.takePrelude() + body
+		case "store":
+			// the value held by field StoreTo at the end of the statement list that contains the
+			// index expression over IndexOf (or of the function body when IndexOf is empty)
+			list := fd.Body.List
+			if tg.IndexOf != "" {
+				l, idx := findIndexList(caseBody(fd, tg), tg.IndexOf)
+				if idx == nil {
+					die("%s: no index expression over %s", tg.Func, tg.IndexOf)
+				}
+				list = l
+			}
+			if tg.StoreTo == "" {
+				die("%s: mode store needs store_to", tg.Func)
+			}
+			t.track = true
+			body = t.storeFragment(list, tg.StoreTo)
 		case "ifcond":
 			// the condition of the first if statement in the function (with its init as a let)
 			var ifs *ast.IfStmt
